@@ -303,6 +303,12 @@ func New(pcapDir, indexDir, snapshotDir, stateDir, converterDir, watchDir string
 		idx, err := index.NewReader(fn)
 		if err != nil {
 			log.Printf("Unable to load index %q: %v", fn, err)
+			if index.IsUnfinished(fn) {
+				// the service stopped while the file was written, nothing refers to it
+				if err := os.Remove(fn); err != nil {
+					log.Printf("Unable to remove unfinished index %q: %v", fn, err)
+				}
+			}
 			continue
 		}
 		mgr.indexes = append(mgr.indexes, idx)
